@@ -53,4 +53,7 @@ theorem add_listener_purges_first_eq : Gen.Cache.add_listener_purges_first = tru
 theorem add_listener_purge_expire_now_eq (now : Int) : Gen.Cache.add_listener_purge_expire_now now = now := rfl
 theorem add_listener_purge_updates_now_eq (now : Int) : Gen.Cache.add_listener_purge_updates_now now = now := rfl
 
+/-- D23b repair: the replay to a new listener uses the instant of the purge that precedes it -/
+theorem add_listener_replay_now_eq (now : Int) : Gen.Cache.add_listener_replay_now now = now := rfl
+
 end Zc
